@@ -91,11 +91,28 @@ def jump_effect(r, ins, i, valid_only):
         if r.random() < 0.2:
             t, f = f, t
         v = "l 8 r %s 8 r %s 8 %s %s" % (r.choice(gx.REGS), r.choice(gx.REGS), t, f)
-    elif k < 0.75:
+    elif k < 0.74:
         # computed constant: base + offset, folded by jumps()
         t = target_addr(r, ins, i, valid_only)
         off = r.choice([4, 8, l, 0x100])
         v = "b add 8 %s %s" % (c64((t - off) % TOP), c64(off))
+    elif k < 0.80:
+        # a constant sub-computation SHARED by the alternatives of a conditional (Possibilities multiplies the tree out,
+        # the alternatives share the sub-tree object and are folded one after another)
+        op = r.choice(["lsh", "lsh", "rsh", "mul", "div"])
+        if op == "lsh":
+            x, y = r.randint(1, 0x400), r.randint(1, 7); sv = (x << y) % TOP
+        elif op == "rsh":
+            x, y = r.getrandbits(20) | 0x100, r.randint(1, 7); sv = x >> y
+        elif op == "mul":
+            x, y = r.randint(1, 0x400), r.randint(2, 9); sv = (x * y) % TOP
+        else:
+            x, y = r.getrandbits(24) | 0x1000, r.randint(2, 9); sv = x // y
+        xw = r.choice([8, 8, 9, 16])          # sometimes wider than the operation
+        sh = "b %s 8 %s %s" % (op, c64(x, xw), c64(y, r.choice([1, 8])))
+        t = target_addr(r, ins, i, valid_only)
+        f = nxt if r.random() < 0.6 else target_addr(r, ins, i, valid_only)
+        v = "b add 8 %s l 8 r %s 8 r %s 8 %s %s" % (sh, r.choice(gx.REGS), r.choice(gx.REGS), c64((t - sv) % TOP), c64((f - sv) % TOP))
     elif k < 0.85:
         v = r.choice(["r x1 8", "b add 8 r x1 8 c:0400000000000000", "m memory 8 r x2 8",
                       "b nand 8 r x1 8 c:0100000000000000"])
